@@ -1327,6 +1327,10 @@ class _IterativeEvalTracker:
         """Mark which cells have been done this iteration"""
         self.ns.computed.add(cell)
 
+    def uncalced(self, cell):
+        """Mark a cell as not (yet) done this iteration"""
+        self.ns.computed.discard(cell)
+
     def is_calced(self, cell):
         """Which cells have been done this iteration"""
         return cell in self.ns.computed
